@@ -187,6 +187,8 @@ class MapperValued:
         mapping_matrix = self.mapper.mapping_matrix
 
         if self.mesh_pixel_mask is not None:
+            # mask a copy: `mapper.mapping_matrix` is a cached property of the mapper, returned by reference
+            mapping_matrix = np.array(mapping_matrix)
             mapping_matrix[:, self.mesh_pixel_mask] = 0.0
 
         return Array2D(
